@@ -21,6 +21,9 @@ Correspondence with the Rust code:
 * `hashWriteFull/readEncryptedFull` — file id = hash of the stored bytes; the read path does NOT compare the id.
 * `KeyEntry`, `tryKey`, `findKey` — `key_from_backend` + the loop of `find_key_in_backend` (MAC failure `C001` → next key,
                         any other error aborts the search, nothing found → `C002`).
+* `BlobRepo`, `BlobRepo.store`, `copyOne`, `copyMany`, `runCopy` — two repositories with their own keys: `Packer::add`
+                        (`blob/packer.rs`), `commands/copy.rs copy / copy_blobs`, `BlobCopier::copy` (decode with the source key,
+                        re-encode with the destination key); `copyOneRaw` = `BlobCopier::copy_fast` (used by prune inside ONE repository).
 -/
 namespace Rustic.Codec
 
